@@ -545,6 +545,12 @@ def check_dependencies(ctx, rep):
         c07.check_callers(ctx, Proxy(rep))
     except Unsupported as u:
         rep.undecided('C14.J', 'check_callers', '', str(u))
+    # … and that term is the log-Jacobian of the map that was applied: a variational distribution placed directly on the unconstrained variable is exact only if the
+    # transform reports Σ log|g'| of its own forward chain (C07.L on the element-wise transforms of distributions/transforms.py)
+    try:
+        c07.check_generic(ctx, Proxy(rep))
+    except Unsupported as u:
+        rep.undecided('C14.J', 'check_generic', '', str(u))
 
 
 def check_joint(ctx, rep):
@@ -780,6 +786,65 @@ def check_mvn_construction(ctx, rep):
         rep.incomplete('C14.C', 'MultivariateNormal::construction', '', 'no construction of torch.distributions.MultivariateNormal found')
 
 
+def check_analytic_entropy_terms(ctx, rep):
+    """C14.T / C14.C (addition) — the analytic-entropy variant of the ELBO is E_q[log p] + H[q] with H[q] ONE number, the total over the blocks of q:
+    (1) in ELBO._call the entropy term (followed through a module-level helper) is reduced with `.sum()`; an un-summed entropy leaves a vector `E[log p] + H_j`;
+    (2) Distribution.entropy returns the entropy of the torch distribution as it is — it is not replicated to the width of x (a multivariate distribution has ONE
+    entropy for its d components, expanding it and summing counts it d times)."""
+    vm = ctx.prog.module('torchtree.variational.kl')
+    elbo = ctx.classes.get('torchtree.variational.kl.ELBO')
+    call = elbo.resolve('_call')[1] if elbo is not None and elbo.resolve('_call') else None
+    if call is None:
+        raise AnalysisError('ELBO._call not found')
+    branches = [n for n in ast.walk(call) if isinstance(n, ast.If) and self_attr(n.test) == 'entropy']
+    key = 'ELBO._call::analytic-entropy-is-the-total'
+    if len(branches) != 1:
+        rep.undecided('C14.T', key, where(vm, call), f"{len(branches)} branches on self.entropy")
+    else:
+        exprs = [st.value for st in branches[0].body if isinstance(st, (ast.Assign, ast.Return)) and st.value is not None]
+        # follow a module-level helper once
+        extra = []
+        for e in exprs:
+            for c in ast.walk(e):
+                if isinstance(c, ast.Call) and isinstance(c.func, ast.Name) and c.func.id in vm.functions:
+                    extra += [r.value for r in ast.walk(vm.functions[c.func.id]) if isinstance(r, ast.Return) and r.value is not None]
+        ents, bad = 0, []
+        for e in exprs + extra:
+            for c in ast.walk(e):
+                if isinstance(c, ast.Call) and isinstance(c.func, ast.Attribute) and c.func.attr == 'entropy':
+                    ents += 1
+                    par = getattr(c, '_parent', None)
+                    gp = getattr(par, '_parent', None)
+                    summed = isinstance(par, ast.Attribute) and par.attr == 'sum' and isinstance(gp, ast.Call) and gp.func is par and not gp.args and not gp.keywords
+                    if not summed:
+                        bad.append(c)
+        if not ents:
+            rep.undecided('C14.T', key, where(vm, branches[0]), 'no entropy() term found in the analytic-entropy branch (nor in a helper of the module it calls)')
+        else:
+            rep.check('C14.T', key, not bad, where(vm, bad[0] if bad else branches[0]), {'entropy_terms': ents},
+                      f"ELBO._call adds `{norm_text(bad[0])[:50] if bad else ''}` without reducing it: q.entropy() has one entry per block / component of q, so the objective is a vector "
+                      f"E[log p] + H_j instead of the number E[log p] + Σ_j H_j — with q equal to the posterior it is not log Z")
+    dm = ctx.prog.module('torchtree.distributions.distributions')
+    dcls = ctx.classes.get('torchtree.distributions.distributions.Distribution')
+    ent = dcls.resolve('entropy')[1] if dcls is not None and dcls.resolve('entropy') else None
+    key = 'Distribution.entropy::entropy-of-the-distribution-as-it-is'
+    if ent is None:
+        rep.undecided('C14.C', key, '', 'Distribution.entropy not found')
+        return
+    from sa.util import backward_slice, local_assignments
+    defs = local_assignments(ent)
+    rets = [r.value for r in ast.walk(ent) if isinstance(r, ast.Return) and r.value is not None]
+    repl = [x for r in rets for e in backward_slice(r, defs) for x in ast.walk(e)
+            if isinstance(x, ast.Call) and isinstance(x.func, ast.Attribute) and x.func.attr in ('expand', 'expand_as', 'repeat', 'tile', 'repeat_interleave', 'broadcast_to')]
+    has = any(isinstance(x, ast.Call) and isinstance(x.func, ast.Attribute) and x.func.attr == 'entropy' for r in rets for e in backward_slice(r, defs) for x in ast.walk(e))
+    if not has:
+        rep.undecided('C14.C', key, where(dm, ent), 'the returned value is not derived from <distribution>.entropy()')
+    else:
+        rep.check('C14.C', key, not repl, where(dm, repl[0] if repl else ent), {'replications': [norm_text(x)[:60] for x in repl]},
+                  f"Distribution.entropy replicates the entropy (`{norm_text(repl[0])[:60] if repl else ''}`): the entropy of a multivariate torch distribution is one number for its d "
+                  f"components, replicated to the width of x and summed by the objective it is counted d times")
+
+
 def check_mvn_entropy(ctx, rep):
     """C14.C — the entropy of the multivariate normal variational family (ELBO(entropy=True) adds it instead of −E log q).  Either it is delegated to the torch distribution
     built exactly as log_prob / rsample build it (same keyword dictionary), or it is a closed form: then, for each of the three parameterisations, the returned expression must be
@@ -914,6 +979,7 @@ def run(ctx, rep):
     except Unsupported as u:
         rep.undecided('C14.C', 'check_mvn_entropy', '', str(u))
     check_mvn_construction(ctx, rep)
+    check_analytic_entropy_terms(ctx, rep)
     # options of the objectives reach the constructor parameter of their own name
     from props import c09
     c09.check_positional_options(ctx, rep, rule='C14.O', only=lambda ci: ci.module.name.startswith('torchtree.variational'))
@@ -927,6 +993,9 @@ def run(ctx, rep):
             c11.check_setters(ctx, RuleProxy(rep, 'C14.S', 'draw-reaches-the-model::'), cls)
     c11.check_foreign_private_stores(ctx, RuleProxy(rep, 'C14.S', 'draw-reaches-the-model::'), rule='C14.S')
     c11.check_memo_keys(ctx, RuleProxy(rep, 'C14.S', 'memo::'), only=lambda m: m.name.startswith('torchtree.distributions') or m.name.startswith('torchtree.variational'))
+    # the draws are STORED where the model reads them: through the setter of x (x may be a concatenation or a transformed parameter whose getter returns a cache)
+    c11.check_inplace(ctx, RuleProxy(rep, 'C14.S', 'draw-reaches-the-model::'), rule='C11.W',
+                      only=lambda m, fn: m.name.startswith('torchtree.distributions') or m.name.startswith('torchtree.variational'))
     # C14.C (shapes): the joint adds the components of ONE draw — no whole-tensor reduction and no axis counted from the front in JointDistributionModel (C10.D / C10.P / C10.J rules);
     # with [S, K] a `flatten(1)` adds the K inner draws of a row and every objective returns K·log Z
     from props import c10
